@@ -113,7 +113,6 @@ def check_chi2(case):
         Aarr = Aarr[:, 0].copy()
     sarr = np.array([float(v) for v in s])
     barr = np.array(b)
-    keep = (Aarr.copy(), sarr.copy(), barr.copy())
     bad = []
     try:
         c = computechi2(barr, sarr, Aarr)
@@ -131,8 +130,6 @@ def check_chi2(case):
             bad.append(('computechi2:%s%s' % (name, trig), 'got %s expected %s' % (np.asarray(g).tolist(), np.asarray(e).tolist())))
     if int(got['dof']) != ref['dof']:
         bad.append(('computechi2:dof' + trig, 'got %r expected %r' % (got['dof'], ref['dof'])))
-    if not (np.array_equal(Aarr, keep[0]) and np.array_equal(sarr, keep[1]) and np.array_equal(barr, keep[2])):
-        pass   # not stated for computechi2
     ngood = sum(1 for v in s if v > 0)
     label = 'ok:chi2:m%d:%s:%s' % (m, 'over' if ngood > m else 'exact', 'zw' if ngood < n else ('w' if any(v != 1 for v in s) else 'unit'))
     return bad, label
@@ -179,7 +176,6 @@ def check_pcomp(case):
     refs = pcomp_reference(X, std, cov)
     if isinstance(refs, str):
         return None, refs
-    keep = X.copy()
     flags = 'std%d:cov%d' % (std, cov)
     try:
         p = pcomp(X, standardize=std, covariance=cov)
@@ -219,8 +215,6 @@ def check_pcomp(case):
         if not any(de.shape == (X.shape[0], nv) and np.all(np.abs(de - D.dot(co)) <= 1e-9 * dscale) for D in datas):
             bad.append(('pcomp:derived' + (':standardize' if std else ''),
                         'derived[0] %s, data[0] x components %s' % (de[0].tolist() if de.ndim == 2 else de.shape, datas[0][0].dot(co).tolist())))
-    if not np.array_equal(X, keep):
-        pass   # not stated for pcomp
     offdiag = bool(np.any(np.abs(M0 - np.diag(np.diag(M0))) > 1e-12))
     return bad, 'ok:pcomp:%s:%s' % (flags, 'singular' if singular else ('diag' if not offdiag else 'full'))
 
